@@ -109,6 +109,11 @@ def faults(isa, limit=None):
             d['macros'] = {(mn.upper() if k == mac else k): v for k, v in d['macros'].items()}
             yield f'macro {mac} := instruction name {mn.upper()}', d
     regs = (isa['general'].get('registers') or [])
+    if regs and any('register' in ocfg for sdef in isa.get('operand_sets', {}).values() for ocfg in sdef['operand_values'].values()):
+        # no register declared at all while operands still name one
+        d = clone(); d['general']['registers'] = []; yield 'registers := [] (operands still name registers)', d
+        d = clone(); del d['general']['registers']; yield 'registers section deleted (operands still name registers)', d
+        d = clone(); d['general']['registers'] = None; yield 'registers := null (operands still name registers)', d
     for i, r in enumerate(regs[:limit]):
         for kw in KEYWORDS:
             d = clone()
@@ -211,7 +216,7 @@ def meta(tier):
         'rule': '(a) base definitions (2 generated with every section, the 9 shipped with the repository) must load; (b) every fault of the '
                 'catalogue at every applicable site of the generated bases (first sites only for the shipped ones): delete general / '
                 'instructions, mnemonic / macro / register := keyword (each keyword, lower and upper case for mnemonics), macro := '
-                'instruction name, undeclared operand set (instruction and macro), undeclared register, count := len+-1, an explicitly listed combination with one operand too few / too many, inverted '
+                'instruction name, undeclared operand set (instruction and macro), undeclared register, no register declared at all (empty / deleted / null section), count := len+-1, an explicitly listed combination with one operand too few / too many, inverted '
                 'numeric_bytecode range, zone end := 2^bits, start := end+1, start := -1; (c) min_version := x.y.z[pre] over '
                 'x in {0,1}, y,z in {0,2,3,4,5,9,10,30}, pre in {none,a1,b1,b2}; (d) #require "<name> <op> <v>" over ISA version x '
                 '5 operators x an 8-version pool whose numeric and lexical orders differ x {matching, other} name; '
